@@ -34,6 +34,7 @@ from __future__ import annotations
 import ast
 import copy
 import hashlib
+import re
 from typing import Optional
 
 from .canon import canonicalise
@@ -119,6 +120,11 @@ class _NNF(ast.NodeTransformer):
         self.generic_visit(n)
         if isinstance(n.op, ast.Not):
             o = n.operand
+            if isinstance(o, ast.Call) and isinstance(o.func, ast.Name) and o.func.id in ('any', 'all') and len(o.args) == 1 and not o.keywords \
+                    and isinstance(o.args[0], (ast.GeneratorExp, ast.ListComp)):
+                g = o.args[0]
+                flipped = ast.GeneratorExp(elt=self.visit(ast.UnaryOp(op=ast.Not(), operand=g.elt)), generators=g.generators)
+                return ast.copy_location(ast.Call(func=ast.Name(id='all' if o.func.id == 'any' else 'any', ctx=ast.Load()), args=[flipped], keywords=[]), n)
             if isinstance(o, ast.BoolOp) or (isinstance(o, ast.Compare) and len(o.ops) == 1 and isinstance(
                     o.ops[0], (ast.Is, ast.IsNot, ast.Eq, ast.NotEq, ast.In, ast.NotIn))):
                 return self.visit(negate(o))
@@ -561,6 +567,22 @@ class Structurer:
                         st.test = _and(st.test, guard)
                     st.body = st.body[1:]
                     self.changed = True
+                # search loop:  for x in it: if C: break / else: BODY   ->   if not any(C for x in it): BODY
+                # (the loop variable must not be read after the loop; C is evaluated for the same elements in the same order, stopping
+                # at the first true one, exactly as any() does)
+                if isinstance(st, ast.For) and st.orelse and len(st.body) == 1 and isinstance(st.body[0], ast.If) and not st.body[0].orelse \
+                        and len(st.body[0].body) == 1 and isinstance(st.body[0].body[0], ast.Break) and isinstance(st.target, ast.Name) \
+                        and _first_walrus(st.body[0].test) is None \
+                        and not any(isinstance(x, ast.Name) and x.id == st.target.id for later in body[i + 1:] for x in ast.walk(later)) \
+                        and not any(isinstance(x, ast.Name) and x.id == st.target.id for later in st.orelse for x in ast.walk(later)) \
+                        and not any(isinstance(x, (ast.Break, ast.Continue)) for later in st.orelse for x in ast.walk(later)):
+                    gen = ast.GeneratorExp(elt=st.body[0].test, generators=[ast.comprehension(target=st.target, iter=st.iter, ifs=[], is_async=0)])
+                    test = ast.UnaryOp(op=ast.Not(), operand=ast.Call(func=ast.Name(id='any', ctx=ast.Load()), args=[gen], keywords=[]))
+                    new_if = ast.copy_location(ast.If(test=test, body=st.orelse, orelse=[]), st)
+                    ast.fix_missing_locations(new_if)
+                    body = body[:i] + [new_if] + body[i + 1:]
+                    self.changed = True
+                    continue
                 # S6 for x in it: yield x  -> yield from it
                 if isinstance(st, ast.For) and not st.orelse and len(st.body) == 1 and isinstance(st.body[0], ast.Expr) \
                         and isinstance(st.body[0].value, ast.Yield) and isinstance(st.target, ast.Name) \
@@ -1163,7 +1185,52 @@ class _Rename(ast.NodeTransformer):
         return n
 
 
+_COMP = (ast.ListComp, ast.SetComp, ast.GeneratorExp, ast.DictComp)
+
+
+def _alpha_comprehensions(fn: ast.FunctionDef) -> None:
+    """the variables a comprehension binds are local to it: name them by nesting depth and position (c<depth>_<k>), so that two
+    comprehensions do not differ by whether they happen to share a variable name with a third one"""
+    def depth_of(node: ast.AST, d: int) -> None:
+        for ch in ast.iter_child_nodes(node):
+            if isinstance(ch, _COMP):
+                depth_of(ch, d + 1)           # inner first
+                rename(ch, d)
+            elif isinstance(ch, (ast.FunctionDef, ast.AsyncFunctionDef, ast.Lambda, ast.ClassDef)):
+                continue
+            else:
+                depth_of(ch, d)
+
+    def rename(c: ast.AST, d: int) -> None:
+        names: list[str] = []
+        for g in c.generators:  # type: ignore[attr-defined]
+            for x in ast.walk(g.target):
+                if isinstance(x, ast.Name) and x.id not in names:
+                    names.append(x.id)
+        if any(re.fullmatch(r'c\d+_\d+', nm) for nm in names):
+            return
+        mapping = {nm: f'c{d}_{k}' for k, nm in enumerate(names)}
+        r = _Rename(mapping)
+        gens = c.generators  # type: ignore[attr-defined]
+        for gi, g in enumerate(gens):
+            g.target = r.visit(g.target)
+            if gi > 0:
+                g.iter = r.visit(g.iter)
+            g.ifs = [r.visit(x) for x in g.ifs]
+        if isinstance(c, ast.DictComp):
+            c.key = r.visit(c.key)
+            c.value = r.visit(c.value)
+        else:
+            c.elt = r.visit(c.elt)  # type: ignore[attr-defined]
+
+    for st in fn.body:
+        depth_of(st, 0)
+        if isinstance(st, _COMP):
+            rename(st, 0)
+
+
 def _alpha(fn: ast.FunctionDef) -> None:
+    _alpha_comprehensions(fn)
     params = {a.arg for a in [*fn.args.posonlyargs, *fn.args.args, *fn.args.kwonlyargs]}
     if fn.args.vararg:
         params.add(fn.args.vararg.arg)
@@ -1181,7 +1248,7 @@ def _alpha(fn: ast.FunctionDef) -> None:
                 nm = x.name
             elif isinstance(x, ast.arg):
                 nm = None      # parameters of nested functions / lambdas keep their names
-            if nm and nm not in params and nm not in order:
+            if nm and nm not in params and nm not in order and not re.fullmatch(r'c\d+_\d+', nm):
                 order.append(nm)
     for x in ast.walk(fn):
         if isinstance(x, (ast.Global, ast.Nonlocal)):
@@ -1278,6 +1345,58 @@ def _untangle(fn: ast.FunctionDef) -> ast.FunctionDef:
     return new
 
 
+def hoist_conversions(fn: ast.FunctionDef) -> bool:
+    """`x = [list display / comprehension]` whose only other occurrence is `tuple(x)` (or list / set / frozenset / sorted with x as the sole
+    argument): convert at the definition (`x = tuple(...)`) and use `x` -- the conversion of a fresh list has no side effect, so where it
+    happens does not matter, and the order of the element evaluations stays where it was."""
+    changed = False
+    defs: dict[str, list[ast.Assign]] = {}
+    for n in _own_nodes(fn):
+        if isinstance(n, ast.Assign) and len(n.targets) == 1 and isinstance(n.targets[0], ast.Name):
+            defs.setdefault(n.targets[0].id, []).append(n)
+    parents: dict[int, ast.AST] = {}
+    for n in _own_nodes(fn):
+        for ch in ast.iter_child_nodes(n):
+            parents[id(ch)] = n
+    for name, ds in defs.items():
+        if len(ds) != 1 or not isinstance(ds[0].value, (ast.List, ast.ListComp)):
+            continue
+        if isinstance(ds[0].value, ast.List) and any(isinstance(x, ast.Starred) for x in ds[0].value.elts):
+            continue
+        uses = [n for n in _own_nodes(fn) if isinstance(n, ast.Name) and n.id == name and n is not ds[0].targets[0]]
+        if len(uses) != 1 or not isinstance(uses[0].ctx, ast.Load):
+            continue
+        par = parents.get(id(uses[0]))
+        if not (isinstance(par, ast.Call) and isinstance(par.func, ast.Name) and par.func.id in ('tuple', 'frozenset', 'set') and len(par.args) == 1
+                and par.args[0] is uses[0] and not par.keywords):
+            continue
+        # the use must come after the definition in the same straight-line block or below it (no loop in between that would re-run the use)
+        anc = parents.get(id(par))
+        looped = False
+        while anc is not None and anc is not fn:
+            if isinstance(anc, (ast.For, ast.While, ast.AsyncFor)) and not any(x is ds[0] for x in ast.walk(anc)):
+                looped = True
+            anc = parents.get(id(anc))
+        if looped:
+            continue
+        conv = par.func.id
+        ds[0].value = ast.Call(func=ast.Name(id=conv, ctx=ast.Load()), args=[ds[0].value], keywords=[])
+        gp = parents.get(id(par))
+        if gp is None:
+            continue
+        for field, val in ast.iter_fields(gp):
+            if val is par:
+                setattr(gp, field, uses[0])
+            elif isinstance(val, list):
+                for i, x in enumerate(val):
+                    if x is par:
+                        val[i] = uses[0]
+        changed = True
+    if changed:
+        ast.fix_missing_locations(fn)
+    return changed
+
+
 def _structural_fixpoint(fn: ast.FunctionDef, rounds: int) -> ast.FunctionDef:
     for _ in range(rounds):
         fn = _untangle(fn)
@@ -1292,6 +1411,7 @@ def _structural_fixpoint(fn: ast.FunctionDef, rounds: int) -> ast.FunctionDef:
         params_ = {a.arg for a in [*fn.args.posonlyargs, *fn.args.args, *fn.args.kwonlyargs]}
         s = Structurer(void=not _has_return_value(fn.body), local_lists=lists - nonlists - params_)
         fn.body = s.block(fn.body, True) or [ast.Pass()]
+        hoist_conversions(fn)
         fn = _Consumers().visit(fn)
         fn = _Exprs().visit(fn)
         split_webs(fn)
